@@ -191,7 +191,9 @@ func execReceiver(input string) string {
 	}
 	np, _ := strconv.Atoi(hd[1])
 	sp := newScriptedProducer()
-	sender := message.VerifNewKafkaMessageSender(kafkaproducer.VerifNewKafkaProducer(sp, topic), topic)
+	// several senders (nodes and the application each hold one) write to the same topic
+	senders := []message.Sender{message.VerifNewKafkaMessageSender(kafkaproducer.VerifNewKafkaProducer(sp, topic), topic),
+		message.VerifNewKafkaMessageSender(kafkaproducer.VerifNewKafkaProducer(sp, topic), topic)}
 	var delivered []string
 	recvClient := newScriptedConsumer()
 	recv := message.VerifNewKafkaMessageReceiver(recvClient, topic, np, func(m message.Message) []error {
@@ -244,6 +246,7 @@ func execReceiver(input string) string {
 				g := opsF[j]
 				msg := message.Message{MessageType: string(unhx(g[1])), Key: string(unhx(g[2])), Payload: unhx(g[3])}
 				var err error
+				sender := senders[(j+len(g[1]))%2]
 				if g[0] == "send" {
 					err = sender.Send(msg)
 				} else {
